@@ -117,6 +117,7 @@ func TestExplore(t *testing.T) {
 		{"bng-0.bng.demo.svc.cluster.local:8081", "bng-1.bng.demo.svc.cluster.local:8081", "bng-2.bng.demo.svc.cluster.local:8081"},
 		{"10.0.0.1:8081", "node-1:8081", "node-10"},
 		{"a", "A", "node-2"},
+		{"node-1", "node-10", "node-2"}, // one name is a prefix of another, and some node lists the longer one first
 	}
 	orderSets := [][][]int{
 		{{1, 2, 3}, {3, 2, 1}, {2, 3, 1}}, // every node lists all three, each in another order
